@@ -33,16 +33,16 @@ C = {
    "Every artifact of the shared case pool is parsed by a decoder written from the format description only (never the crate's reader): header, footer, node layouts, backward pointers, exact tiling, root last, checksum, decoded map == inserted map; also every file written in the history scenarios and by builders after rejected calls.",
    "The 63-entry common-input table is pinned format data; compactness policy is recorded, not judged.", "DESIGN.md#c09"),
  "C10": (True, "exploration", "independent reference encoder for format versions 1-3 (self-checked by the independent decoder) + committed golden files; reader queried against the encoded model",
-   "~2400 models x versions {1,2,3} x 2 output distributions/node-form policies, opened in 9 container kinds (Vec, slice, Cow, Box, Arc newtype, mmap, map_data, Map/Set) and put through a full query battery incl. an enumeration through the low-level node interface and cross-version set operations; containers whose data is swapped through map_data for different well-formed bytes of equal length (other content, other version); 40 golden files; header sweep for the required error classes incl. version numbers that only look supported after truncation.",
+   "~2400 models x versions {1,2,3} x 2 output distributions/node-form policies, opened in 9 container kinds (Vec, slice, Cow, Box, Arc newtype, mmap, map_data, Map/Set) and put through a full query battery incl. an enumeration through the low-level node interface and cross-version set operations; containers whose data is swapped through map_data for different well-formed bytes of equal length (other content, other version); 40 golden files; header sweep for the required error classes incl. version numbers that only look supported after truncation; the command line reader `fst range -o` over reference-encoded files of every version (incl. the 32..35-byte files).",
    "Inputs both too short and of unsupported version may report either error; encoder output is validated by the decoder before use.", "DESIGN.md#c10"),
  "C11": (True, "fault_enumeration", "event-log monitor on fault-injecting sinks: every write-call index x error kinds (incl. io::Errors with structured payloads) / zero-length accept / flush failure, directly and through BufWriter",
-   "The sink logs which builder call was in progress when the injected fault happened; that call must return Err(Io) (no panic, no Ok, no other error); sessions that never reach the fault must deliver and flush every byte; faults at the start and in the middle of a logical write, device-full sinks, structured error payloads, an output above 64 KiB.",
+   "The sink logs which builder call was in progress when the injected fault happened; that call must return Err(Io) (no panic, no Ok, no other error); sessions that never reach the fault must deliver and flush every byte; faults at the start and in the middle of a logical write, device-full sinks, structured error payloads, an output above 64 KiB; command line builds writing to a pipe whose reader went away or to /dev/full must not exit 0.",
    "Interrupted is a retry request (C07); behaviour after an I/O error is not judged.", "DESIGN.md#c11"),
  "C12": (True, "exploration", "hooked premise (cache eviction counter H2) + independent trie/minimal-DFA oracle on the decoded node graph",
    "For every build: nodes <= trie nodes; when the hooked counters show no eviction: no two reachable nodes share a signature and sets have exactly the minimal DFA's state count; corpora must realise > 50% of achievable sharing (measured 0.78-0.96); also builders filled side by side on one thread.",
    "'No eviction' is observed through the cfg-guarded counters; 'most' is read as > 0.5.", "DESIGN.md#c12"),
  "C13": (True, "exploration", "allocation monitor: counting global allocator around builds streaming to io::sink() at growing N",
-   "Peak live heap stays below an a-priori constant from geometry/fan-out/key length, does not move by more than 2% between N=10^6 and 10^7 (3*10^7 thorough), nothing is retained after finish; several geometries via hook H1.",
+   "Peak live heap (decimal, base-64, prefix-chain, grouped-tails, repeated-key and decreasing-value series; short-write sinks; bulk entry points) stays below an a-priori constant from geometry/fan-out/key length, does not move by more than 2% between N=10^6 and 10^7 (3*10^7 thorough), nothing is retained after finish; several geometries via hook H1.",
    "Decides the bounded restatement (scales up to 3*10^7), not 'for all N'.", "DESIGN.md#c13"),
  "C14": (True, "exploration", "allocation monitor: counting global allocator around traversals, set operations and lookups at growing N",
    "Peak heap (the allocation count is recorded as evidence) of stream/range/search/set-ops (k up to 8) - including operations whose single next() call has to skip ~N candidates (disjoint intersections, cancelling differences, Set relations) - are independent of N in {10^4,10^5,10^6(,10^7)} and under a fixed small constant; open-over-borrowed/mmap + 10^5 lookups allocate exactly 0 times, also on a 69 MB FST; {:?} formatting of a Map/Set is measured as an enumeration.",
@@ -54,13 +54,13 @@ C = {
    "All subsets of {a,b}^<=3 x 6 strictly increasing value shapes (with/without the empty key, zero/non-zero first value), corpora and random monotone maps; every stored value, +-1, extremes and random values through get_key and get_key_into (prefix-preserving); maps also come from builders that were offered repeated and rejected keys in between.",
    "Non-monotone maps are outside the statement.", "DESIGN.md#c16"),
  "C17": (True, "exploration", "reference-model monitor: scalar-value edit distance oracle over an exhaustive multi-byte alphabet scope",
-   "All q in A^<=3 x d<=2 x all k in A^<=3 over an alphabet with 1-4 byte scalars sharing 1/2/3 lead bytes (1.03M triples), Set::search per (q,d), random wide-Unicode strings, three further exhaustive boundary alphabets, one automaton with > 65536 states, and new_with_limit series (payload, monotonicity, behaviour, number of distinct reachable states counted through the public interface).",
+   "All q in A^<=3 x d<=2 x all k in A^<=3 over an alphabet with 1-4 byte scalars sharing 1/2/3 lead bytes (1.03M triples), Set::search per (q,d), random wide-Unicode strings, three further exhaustive boundary alphabets, every query length 1..40 (+47,48,63,64,65) x distances 1..6, one automaton with > 65536 states, and new_with_limit series (payload, monotonicity, behaviour, number of distinct reachable states counted through the public interface).",
    "Keys are valid UTF-8.", "DESIGN.md#c17"),
  "C18": (True, "exploration", "reference language algebra: textbook-constructed reference DFA with exact reachability sets vs the real combinators driven byte by byte",
    "~67k expressions (all leaves incl. every <=2-state component DFA with every sound hint assignment, unary/binary/depth-2/3 compositions) x all short strings + a representative of every reference state: is_match == membership, can_match false only in dead states, will_always_match true only in all-accepting states; patterns of 31..257 bytes driven by two-point perturbations and guided walks; automata built over one re-used query buffer.",
    "Component hints are sound by construction (the statement's premise); a brute-force third definition cross-checks the oracle.", "DESIGN.md#c18"),
  "C19": (True, "exploration", "subprocess monitor of the real fst binary with seeded delay injection (hook H4), offline merge-tree trace checker, model-merge oracle; ThreadSanitizer and valgrind memcheck runs (thorough)",
-   "Hundreds (thorough: thousands) of runs of `fst set|map` over 13 input shapes x batch sizes x fd limits x thread counts x merge modes under seeded delays; exit status, verify(), keys, merged values and byte identity with a sorted build (library build and the command line's own --sorted --force build, also over a longer existing file) are judged; the hooked trace yields the merge tree, and the evidence reports how many distinct trees / worker assignments were observed (213 quick, ~2000 thorough); thorough adds 200 TSan and 30 memcheck runs.",
+   "Hundreds (thorough: thousands) of runs of `fst set|map` over 13 input shapes x batch sizes x fd limits x thread counts x merge modes under seeded delays; exit status, verify(), keys, merged values and byte identity with a sorted build (library build and the command line's own --sorted --force build, also over a longer existing file) are judged; a third of the runs keep the scratch directory on another file system; inputs include CRLF, missing final newlines, empty files, BOM-prefixed and NUL-suffixed keys, 6000 batches in one phase; the hooked trace yields the merge tree, and the evidence reports how many distinct trees / worker assignments were observed (213 quick, ~2000 thorough); thorough adds 200 TSan and 30 memcheck runs.",
    "Interleavings are sampled, not enumerated; keys need no CSV quoting; a subprocess watchdog is inconclusive.", "DESIGN.md#c19"),
  "C20": (True, "exploration", "catch_unwind totality monitor in a release and an overflow-checked build + Miri (undefined-behaviour interpreter) over 16 shards; auxiliary non-runtime forbid(unsafe_code) compile gate",
    "1.3M (thorough 20M) hostile images (boundary header/footer sweep, random strings, truncations/mutations/extensions of valid FSTs) through open + accessors + verify in two build profiles; Miri interprets the same gate plus bounded traversals of mutated FSTs (panic allowed, UB not) and miniature valid-input operations; the command line gate `fst verify` must end with a verdict (exit 0/1) on several hundred hostile files.",
